@@ -105,7 +105,7 @@ def maxdiff(a, b):
 
 
 # ---------------------------------------------------------------- lean
-_THEOREM_RE = re.compile(r"^\s*(?:@\[[^\]]*\]\s*)?(?:private\s+|protected\s+)?theorem\s+([A-Za-z_][\w.']*)", re.M)
+_THEOREM_RE = re.compile(r"^\s*(?:@\[[^\]]*\]\s*)?(?:private\s+|protected\s+)?theorem\s+([A-Za-z_][\w.'?!]*)", re.M)
 _NAMESPACE_RE = re.compile(r"^\s*namespace\s+([\w.]+)", re.M)
 
 
